@@ -15,6 +15,7 @@ not sampled numbers.
 Anything outside the supported Python subset raises AnalysisError (exit 2).
 """
 import ast
+import functools
 import math
 from collections import deque
 
@@ -200,6 +201,13 @@ class NativeModel:
     """base of python-side models handed to interpreted code (attributes are visible to it)"""
 
 
+class ExcVal(NativeModel):
+    """the value bound by `except X as e` (only e.args is modelled)"""
+    def __init__(s, what):
+        s.what = what
+        s.args = ('<message>',)
+
+
 class _CopyNS:
     pass
 
@@ -230,7 +238,8 @@ class Interp:
         s.native_modules = {'copy': s.copy_ns, 'math': math}
         s.native_from = {('collections', 'deque'): deque, ('math', 'ceil'): math.ceil, ('math', 'log2'): math.log2,
                          ('math', 'log'): math.log, ('math', 'floor'): math.floor,
-                         ('copy', 'copy'): s._copy, ('copy', 'deepcopy'): s._deepcopy}
+                         ('copy', 'copy'): s._copy, ('copy', 'deepcopy'): s._deepcopy,
+                         ('functools', 'reduce'): functools.reduce}
         s.builtins = {
             'isinstance': s._isinstance, 'hasattr': s._hasattr, 'getattr': s._getattr3, 'setattr': s._setattr,
             'vars': s._vars, 'type': s._type, 'int': int, 'max': max, 'min': min, 'len': len, 'list': list,
@@ -756,6 +765,20 @@ class Interp:
         s._comp(fr, e.generators, lambda: out.__setitem__(s.ev(fr, e.key), s.ev(fr, e.value)))
         return out
 
+    def ev_Lambda(s, fr, e):
+        a = e.args
+        if a.vararg or a.kwarg or a.kwonlyargs or a.defaults or a.posonlyargs:
+            raise AnalysisError("lambda with defaults / star arguments outside the interpreted subset")
+        names = [x.arg for x in a.args]
+
+        def fn(*args):
+            if len(args) != len(names):
+                raise Raised('TypeError')
+            inner = Frame(fr.mod, dict(fr.locals), fr.defcls, fr.selfobj)
+            inner.locals.update(zip(names, args))
+            return s.ev(inner, e.body)
+        return fn
+
     def ev_Call(s, fr, e):
         # super()
         if isinstance(e.func, ast.Name) and e.func.id == 'super' and not e.args:
@@ -953,7 +976,7 @@ class Interp:
                             saved = fr.exc
                             fr.exc = r
                             if h.name:
-                                fr.locals[h.name] = Opaque('exception')
+                                fr.locals[h.name] = ExcVal(r.what)
                             try:
                                 s.block(fr, h.body)
                             finally:
